@@ -121,7 +121,7 @@ func (c *Conn) Read(p []byte) (int, error) {
 				n = h.eofAt
 			}
 			if c.Chunked && n > 1 {
-				switch c.w.Tape.Choose(4) {
+				switch c.w.Tape.ChooseSched(4) {
 				case 1:
 					n = 1
 				case 2:
@@ -333,6 +333,9 @@ func (c *Conn) TotalWritten() int64 {
 	defer c.wr.mu.Unlock()
 	return c.wr.total
 }
+
+// SetRemoteAddr overrides the address this end reports for its peer.
+func (c *Conn) SetRemoteAddr(a string) { c.remote = simAddr{a} }
 
 func (c *Conn) LocalAddr() net.Addr  { return c.local }
 func (c *Conn) RemoteAddr() net.Addr { return c.remote }
